@@ -153,6 +153,10 @@ func main() {
 		os.Exit(2)
 	}
 	cmd, prop := os.Args[1], os.Args[2]
+	if cmd == "worker" {
+		runWorker()
+		return
+	}
 	fs := flag.NewFlagSet("vh", flag.ExitOnError)
 	tier := fs.String("tier", "quick", "")
 	seed := fs.Int64("seed", 1, "")
